@@ -21,7 +21,7 @@ META = {
         'pool / configuration mutates module-level state (read-only calls do not change later results); the '
         'who-may-write rule over SQL is C05-R3.'),
     'decides': ['no hash-seed-ordered value reaches a result, a file or a position-sensitive SQL parameter',
-                'no query path writes module-level state'],
+                'no query path writes module-level state', 'no one-shot iterator is kept in an attribute'],
     'not_decided': ['order of rows SQLite returns for queries without ORDER BY (taken as a function of content)',
                     'float rounding'],
     'assumptions': ['str/int hashing affects only set/frozenset iteration order; dicts keep insertion order',
@@ -272,9 +272,59 @@ def r4_no_shared_objects(ctx, res):
     report(ctx, res, None, 'all')
 
 
+ONE_SHOT_CALLS = {'map', 'filter', 'zip', 'iter', 'reversed', 'enumerate', 'chain', 'islice', 'groupby'}
+
+
+def r5_no_one_shot_iterators_kept(ctx, res):
+    """an object attribute (or a module-level name) never holds a one-shot iterator - map(), filter(), zip(), a generator
+    expression, the result of a generator function: the first reader exhausts it, every later read-only call sees it empty, so
+    repeated calls on one object disagree.  Stored sequences are materialised (tuple(...), list(...))."""
+    gens = set()
+    for f in ctx.repo.all_funcs():
+        if any(isinstance(n, (ast.Yield, ast.YieldFrom)) for n in walk_no_nested(f.node)):
+            gens.add(f.name)
+    n = 0
+
+    def one_shot(v):
+        if isinstance(v, ast.GeneratorExp):
+            return 'a generator expression'
+        if isinstance(v, ast.Call):
+            nm = v.func.id if isinstance(v.func, ast.Name) else (v.func.attr if isinstance(v.func, ast.Attribute) else None)
+            if nm in ONE_SHOT_CALLS:
+                return f'{nm}(...)'
+            if nm in gens and isinstance(v.func, ast.Name):
+                return f'the generator {nm}(...)'
+        if isinstance(v, ast.IfExp):
+            return one_shot(v.body) or one_shot(v.orelse)
+        return None
+    for f in ctx.repo.all_funcs():
+        for node in walk_no_nested(f.node):
+            if not isinstance(node, (ast.Assign, ast.AnnAssign)) or getattr(node, 'value', None) is None:
+                continue
+            tgts = node.targets if isinstance(node, ast.Assign) else [node.target]
+            for t in tgts:
+                if isinstance(t, ast.Attribute) and isinstance(t.value, ast.Name) and t.value.id in ('self', 'cls'):
+                    n += 1
+                    key = f'kept-iterator:{f.key}:{norm(t)}'
+                    what = one_shot(node.value)
+                    if what is None and isinstance(node.value, ast.Name):
+                        from ..pyutil import binding_sites
+                        vals = [b[1] for b in binding_sites(f.node, node.value.id) if b[0] == 'assign']
+                        whats = [one_shot(x) for x in vals]
+                        what = next((w for w in whats if w), None) if vals and all(whats) else None
+                    res.inst(key, f.module.loc(node), what or 'materialised / scalar value')
+                    if what:
+                        res.find(key, f.module.loc(node), f'{f.qualname} stores {what} in `{norm(t)}`: a one-shot iterator kept on the object is '
+                                                          f'empty after its first use, so the second expanded_lexicons()/describe()-style read '
+                                                          f'differs from the first')
+    if n < 40:
+        raise AnalysisError(f'only {n} attribute assignments examined')
+
+
 RULES = [
     ('C16-R1', r1_ont, 300),
     ('C16-R2', r2_no_hidden_state, 300),
     ('C16-R3', r3_memo_purity, 1),
     ('C16-R4', r4_no_shared_objects, 4),
+    ('C16-R5', r5_no_one_shot_iterators_kept, 40),
 ]
